@@ -172,7 +172,7 @@ DEFAULT_PROFILE = {
     "plug_counts": [1, 1, 2, 3],
     "stalls": [1, 1, 2, 3],
     "pc_steps": [60, 60, 1, 15, 90],
-    "starts": [0, 0, 3600 * 8, 86400 - 600, 1234, 3 * 86400 + 17 * 3600 + 13],
+    "starts": [0, 0, 3600 * 8, 86400 - 600, 1234, 3 * 86400 + 17 * 3600 + 13, 1577836800 + 23 * 3600 + 3000],  # last: 2020-01-01 real-date epoch
     "valid_plugs_only": False,
 }
 
